@@ -30,7 +30,7 @@ ASSUMPTIONS = ['instructions inside one barrier-to-barrier segment are not inter
                'cross-thread read or write conflict a deterministic wrong answer instead',
                'integer inputs stay where the element type\'s own subtraction and squaring cannot overflow',
                'float32 inputs: relative tolerance 1e-6 (the kernel subtracts in float32 by construction); others 1e-12; Hamming exact']
-REACH_EXPECTED = ['wide_rows', 'tall_matrix', 'team_ge_2', 'one_thread_per_sample', 'dirty_out', 'strided_out', 'fortran_X', 'negative_stride',
+REACH_EXPECTED = ['int64_coordinates_beyond_2_53', 'float32_rows_whose_sum_of_squares_needs_float64', 'wide_rows', 'tall_matrix', 'team_ge_2', 'one_thread_per_sample', 'dirty_out', 'strided_out', 'fortran_X', 'negative_stride',
                   'zero_samples', 'zero_features', 'invalid_rejected', 'schedule_pair_compared', 'via_metric_name']
 
 EUCL = ('int8', 'int16', 'int32', 'int64', 'float32', 'float64')
@@ -160,7 +160,9 @@ def call_kernel(ctx, fn, X, y, out, T, dec, iso=True):
     if bad:
         raise SimViolation('out_of_bounds_write', '%d heap buffers with damaged red zones after the call' % bad)
     if st['sync_seen']:
-        ctx.count('regions_with_omp_sync', st['sync_seen'])
+        # critical sections / atomics / locks / `with gil:` blocks inside the region: the simulated runtime commits what is
+        # written inside them at once and shows it to the next thread that enters one (sim/native/simrt.c, cs_enter)
+        ctx.count('critical_sections_in_regions', st['sync_seen'])
     ctx.steps += st['switches'] + st['barriers']
     ctx.count('parallel_regions', st['regions'])
     ctx.count('virtual_thread_switches', st['switches'])
@@ -225,6 +227,19 @@ def valid_call(ctx, t, kernel, fn):
         yv = Xv[t.draw(n)].copy()          # the target is one of the rows (as in clustering)
     else:
         yv = gen_values(t, (f,), dt)
+    if kernel != 'hamming' and dt == 'int64' and 1 <= n <= 70 and 1 <= f <= 9 and t.flag(1, 4):
+        # large 64-bit coordinates close to each other (time stamps, hashed ids): every difference is small and exact in the
+        # element type, although the coordinates themselves do not fit a double
+        base = (1 << t.choice((54, 55, 60))) + t.draw(1000)
+        Xv = (base + np.array(t.block(n * f, 2000), dtype=np.int64).reshape(n, f)).astype('int64')
+        yv = (base + np.array(t.block(f, 2000), dtype=np.int64)).astype('int64')
+        ctx.hit('int64_coordinates_beyond_2_53')
+    if kernel == 'euclidean' and dt == 'float32' and 1 <= n <= 12 and t.flag(1, 6):
+        # wide rows of whole numbers (counts, grey values): every term is exact in float32, their sum needs more than 24 bits
+        f = t.choice((300, 700, 1500))
+        Xv = np.array(t.block(n * f, 256), dtype=np.float64).reshape(n, f).astype('float32')
+        yv = np.zeros(f, dtype='float32')
+        ctx.hit('float32_rows_whose_sum_of_squares_needs_float64')
     X = layout(ctx, t, Xv, ('C', 'C', 'F', 'strided', 'neg', 'offset'))
     y = layout(ctx, t, yv, ('C', 'C', 'strided', 'neg'))
     out_kind = t.draw(5)           # 0/1 none, 2 dirty contiguous, 3 dirty strided view, 4 dirty reversed view
